@@ -294,7 +294,9 @@ class Engine:
             allowed = c.get('raises', {})
             if exc in allowed:
                 cond = allowed[exc]
-                g = z3.BoolVal(True) if cond is True else self.spec_bool(cond, st, use_old=True)
+                if isinstance(cond, tuple) and cond and cond[0] == 'maybe':      # may raise, and only if: one direction is an obligation
+                    cond = cond[1]
+                g = z3.BoolVal(True) if (cond is True or cond == 'maybe') else self.spec_bool(cond, st, use_old=True)
                 self.oblige(st, g, f'raise-{exc}-only-if@L{ln}', 'raise', node, note=str(cond))
                 for k, e in enumerate(c.get('raise_ensures', [])):
                     self.oblige(st, self.spec_bool(e, st), f'raise-post[{k}]@L{ln}', 'raise', node, note=e)
